@@ -2,7 +2,7 @@
 (* Direction B for C08: dtest and dsort runs of the real tools.
    Test(a, b, flag, rc): rc must be TestRc(flag, Cmp(a, b));   positions are <<chain day, second of day>>
    Sort(keys, out, rev): out is a permutation of keys (as multisets of positions), ordered, nothing lost *)
-EXTENDS Order, Json, IOUtils, TLCExt
+EXTENDS Order, Json, IOUtils, TLCExt, SequencesExt
 VARIABLE l
 Tr == ndJsonDeserialize(IOEnv.TRACE)
 Ev == Tr[l]
@@ -22,9 +22,10 @@ TSort == /\ l <= Len(Tr) /\ Ev.e = "Sort"
          /\ Ev.outlines_all_from_input
          /\ Ev.nin = Ev.nout
          /\ Len(Ev.out) = Len(Ev.keys)
-         /\ \A i \in 1..Len(Ev.keys) : CountR(Ev.keys, Ev.keys[i]) = CountR(Ev.out, Ev.keys[i])
-         /\ \A i \in 1..(Len(Ev.out) - 1) :
-               IF Ev.rev THEN LexCmp(Ev.out[i], Ev.out[i + 1]) >= 0 ELSE LexCmp(Ev.out[i], Ev.out[i + 1]) <= 0
+         \* ordered permutation: positions that compare equal are identical pairs, so the sorted sequence of the keys is unique and the
+         \* output must be exactly it (SortSeq of the CommunityModules: n log n instead of the n^2 of counting every element)
+         /\ LET srt == SortSeq(Ev.keys, LAMBDA p, q : LexCmp(p, q) < 0)
+            IN Ev.out = (IF Ev.rev THEN Reverse(srt) ELSE srt)
          /\ l' = l + 1 /\ UNCHANGED vars
 TNext == TReset \/ TTest \/ TSort
 TSpec == TInit /\ [][TNext]_<<vars, l>>
